@@ -38,6 +38,8 @@ fn sample_file(seektable: bool, padding: u32) -> Vec<u8> {
     o = if seektable { o.seektable_frames(1) } else { o.no_seektable() };
     o = if padding == 0 { o.no_padding() } else { o.padding(padding).unwrap() };
     o = o.tag("TITLE", "fault enumeration");
+    // a block late in the metadata (behind the comment and the seek table): an edit of it lies in the last bytes of an in-place rewrite
+    o = o.application(Application { id: 0x7465_7374, data: vec![1; 40] });
     let pcm = pcm40();
     let mut cur = std::io::Cursor::new(vec![]);
     let mut w = FlacSampleWriter::new(&mut cur, o, 44100, 16, 2, Some(pcm.len() as u64)).unwrap();
@@ -216,7 +218,7 @@ pub fn run_scenario(id: &str, sc: &Value, fail_at: usize, mode: FaultMode) -> Ou
             finish(r, rw)
         }
         "update" => {
-            // edit: "equal" | "grow" | "shrink" | "rebuild" | "rebuild-sinkfault" | "rebuild-closure"
+            // edit: "equal" | "equal-late" | "grow" | "shrink" | "rebuild" | "rebuild-sinkfault" | "rebuild-closure"
             let edit = sc["edit"].as_str().unwrap();
             let file = sample_file(true, if edit.starts_with("rebuild") { 0 } else { 60 });
             let sink_fault = edit == "rebuild-sinkfault";
@@ -236,6 +238,11 @@ pub fn run_scenario(id: &str, sc: &Value, fail_at: usize, mode: FaultMode) -> Ou
                     |blocks| {
                         match edit {
                             "equal" => blocks.update::<VorbisComment>(|vc| vc.set("TITLE", "FAULT ENUMERATION")),
+                            "equal-late" => {
+                                if let Some(a) = blocks.get_mut::<Application>() {
+                                    a.data = vec![9; 40];
+                                }
+                            }
                             "grow" => blocks.update::<VorbisComment>(|vc| vc.set("ARTIST", "somebody")),
                             "shrink" => blocks.update::<VorbisComment>(|vc| vc.remove("TITLE")),
                             _ => {
